@@ -200,8 +200,9 @@ pub fn check_c11(history: &History) -> Check {
             if immediate.is_some() && !position.contains_key(ack) && !drained.contains(ack) {
                 // answered on the spot. Legitimate for puts of existing keys; an in-place put_or_update that carries an
                 // explicit weight (all generated ones do) must queue its weight update: it may not be answered without it
-                ensure!(!(write.kind == "upsert" && write.in_place == Some(true) && write.status == Some(St::Accepted)), "C11", "C11/never-executed",
-                    "thread {} op {}: put_or_update of key {} updated the entry in place and requested an explicit weight, was acknowledged {:?} at once, but no weight update was ever executed or drained by the worker: the queued part of the write was dropped", write.rec.thread, write.rec.index, write.key, write.status);
+                if write.kind == "upsert" && write.in_place == Some(true) && write.status == Some(St::Accepted) {
+                    return Err(Failure::new("C11", "C11/never-executed", format!("thread {} op {}: put_or_update of key {} updated the entry in place and requested an explicit weight, was acknowledged {:?} at once, but no weight update was ever executed or drained by the worker: the queued part of the write was dropped", write.rec.thread, write.rec.index, write.key, write.status)).with_also(vec!["C12".to_string()]));
+                }
                 continue;
             }
             *ack
